@@ -385,16 +385,36 @@ class CoverMon(mon.Monitor):
 
     def is_landing_test(self, c):
         # a named test: `let last = (x + h - xend) * posneg > 0.0; if last { .. }`
+        c0 = c
         for _ in range(3):
             if c.get("k") == "Unary" and c.get("op") == "Not":
                 c = c["e"]
                 continue
             if c.get("k") == "Path" and c.get("res") == "local" and c.get("ty") == "bool":
-                lets = tast.find(self.main, lambda z: z.get("k") == "Let" and z["pat"].get("k") == "PBind" and z["pat"].get("id") == c.get("id") and z.get("init") is not None)
-                assigned = tast.find(self.main, lambda z: z.get("k") == "Assign" and z["l"].get("k") == "Path" and z["l"].get("id") == c.get("id"))
+                scope = getattr(self, "fn_body", None) or self.main
+                lets = tast.find(scope, lambda z: z.get("k") == "Let" and z["pat"].get("k") == "PBind" and z["pat"].get("id") == c.get("id") and z.get("init") is not None)
+                assigned = tast.find(scope, lambda z: z.get("k") == "Assign" and z["l"].get("k") == "Path" and z["l"].get("id") == c.get("id"))
                 if len(lets) == 1 and not assigned:
                     c = lets[0]["init"]
                     continue
+                if len(lets) == 1 and assigned:
+                    # a mutable flag tested right after its declaration (`let mut last = <test>; if last { .. }`): the value
+                    # tested is the initialiser when nothing between the two statements writes the flag
+                    cid = c.get("id")
+                    done = False
+                    for blk in tast.find(scope, lambda z: z.get("k") == "Block" and any(st is lets[0] for st in z.get("stmts", []))):
+                        sts = list(blk.get("stmts", [])) + ([blk["tail"]] if blk.get("tail") is not None else [])
+                        i0 = next(i for i, st in enumerate(sts) if st is lets[0])
+                        for st in sts[i0 + 1:]:
+                            inner = st.get("e") if st.get("k") in ("ExprStmt", "Semi") else st
+                            if inner is not None and inner.get("k") == "If" and inner["cond"] is c0:
+                                c = lets[0]["init"]
+                                done = True
+                                break
+                            if tast.contains(st, lambda z: z.get("k") in ("Assign", "AssignOp") and z["l"].get("k") == "Path" and z["l"].get("id") == cid):
+                                break
+                    if done:
+                        continue
             break
         if c.get("k") == "Call" and c.get("def") in getattr(self, "helpers", {}):
             # a private predicate `fn overshoots(x, h, xend, posneg) -> bool { (x + h - xend) * posneg > 0.0 }`
@@ -481,6 +501,7 @@ def r_land_cover(rep, f):
                         changed = True
         xid = None
         m = CoverMon(fn, main, xid, tv, stage_calls)
+        m.fn_body = body["body"]
         m.helpers = {d_: b_ for d_, b_ in f.bodies.items() if d_.startswith("methods::") and b_.get("params") is not None and "::solve" not in d_}
         mon.Runner(m).run_fn(body)
         for k2, msg, node, trail in m.violations:
